@@ -41,9 +41,8 @@ H = 3600
 # K1-K3 (windows(2).any / E1103 skipping replacement+service tasks / check_e1303 parse_time panic) were repaired in /repo
 # (c324ed4, d5aa3e7, 89050ae), K4 (unparsable start.latest), K5 (optional offset break that is not a pair) and K10 (no profile, no
 # matrix) by d67b161, 7653bff, 11fbd19: no longer known classes, a recurrence is reported as a violation.
-KNAMES = {6: 'empty-capacity-vector-unchecked-panics-in-reader',
-          7: 'more-than-8-load-dimensions-unchecked-panics',
-          8: 'e1102-reported-for-empty-demand-vectors',
+# K6 (empty capacity vector) and K8 (E1102 on empty demand vectors) were repaired in /repo (43cb71c, 302755e): no longer known classes.
+KNAMES = {7: 'more-than-8-load-dimensions-unchecked-panics',
           9: 'fleet-without-any-vehicle-panics-in-reader',
           # G2: found while the reader behind validation was modelled step by step (sub-stream c10_ext); the base model got the step too
           22: 'required-breaks-of-mixed-kinds-or-intersecting-spans-rejected-as-E0002'}
@@ -957,12 +956,8 @@ def py_spec(d):
 def py_known(d):
     out = []
     jobs, vs = d['jobs'], d['vehicles']
-    if any(len(v['capacity']) == 0 for v in vs):
-        out.append(6)
     if any(len(v['capacity']) > 8 for v in vs) or any(len(t['demand'] or []) > 8 for j in jobs for t in job_tasks(j)):
         out.append(7)
-    if any(j['pickups'] and j['deliveries'] and all(not t['demand'] for t in j['pickups'] + j['deliveries']) for j in jobs):
-        out.append(8)
     if all(len(v['vehicle_ids']) == 0 for v in vs):
         out.append(9)
     if any(v['vehicle_ids'] and any(g2_shift(s) for s in v['shifts']) for v in vs):
